@@ -203,6 +203,44 @@ class TimeRef(Ref):
             rows.append(Row(r.present, cols, r.ord))
         return RDS(ds.comps, rows)
 
+    def s_cast(self, a, tname, guard):
+        """Conversions between the time types, stated on the calendar:
+        Date -> Time_Period   the daily period of the date
+        Time_Period -> Date   a daily period is its date; any other period cannot be converted (runtime error)
+        Time -> Date          an interval of a single day is that day; any other interval cannot be converted (runtime error)
+        Time -> Time_Period   the period whose first and last day are the interval's; no such period: runtime error"""
+        v, st = a
+        if v.kind == "null" or st == tname:
+            return super().s_cast(a, tname, guard)
+        live = z3.And(guard, z3.Not(v.null))
+        if st == "Date" and tname == "Time_Period":
+            return tp_sv(self.cal.year(v.val), S("D"), self.cal.doy(v.val), v.null), tname
+        if st == "Time_Period" and tname == "Date":
+            bad = z3.And(live, v.fields["ind"].val != S("D"))
+            self.must_err.append(bad)
+            self.may_err.append(bad)
+            return SV("date", v.null, cal.jan1(v.fields["year"].val) + v.fields["num"].val - 1), tname
+        if st == "Time" and tname == "Date":
+            d1, d2 = v.fields["d1"].val, v.fields["d2"].val
+            bad = z3.And(live, d1 != d2)
+            self.must_err.append(bad)
+            self.may_err.append(bad)
+            return SV("date", v.null, d1), tname
+        if st == "Time" and tname == "Time_Period":
+            d1, d2 = v.fields["d1"].val, v.fields["d2"].val
+            res, found = None, FALSE
+            for ind in ("D", "W", "M", "Q", "S", "A"):
+                y, n = self.period_of(ind, d1)
+                cand = tp_sv(y, S(ind), n, v.null)
+                hit = z3.And(self.start_date(cand) == d1, self.end_date(cand) == d2)
+                res = cand if res is None else ite(z3.And(hit, z3.Not(found)), cand, res)
+                found = z3.Or(found, hit)
+            bad = z3.And(live, z3.Not(found))
+            self.must_err.append(bad)
+            self.may_err.append(bad)
+            return res, tname
+        return super().s_cast(a, tname, guard)
+
     def n_ParamOp(self, node):
         if node.op == "dateadd":
             x = self.ev(node.children[0])
